@@ -243,9 +243,13 @@ def regref_case(rng, root):
             stmts.append((rng.choice(forms), q, rng.choice(modes)))
     for m in modes:
         stmts.append(("Vac%s | %d", None, m))
+    if rng.random() < 0.6:
+        # a register expression written INSIDE the included program: registers are measurement results, not wires of the
+        # subroutine, and are delivered as written whatever modes the call names
+        stmts.append(("Xgate(2 * q%d + 1%%s) | %%d" % rng.choice(modes), None, rng.choice(modes)))
     rng.shuffle(stmts)
     sub_text = "name Feed\nversion 1.0\n\n" + "".join((f % (q, m) if q else f % ("", m)) + "\n" for f, q, m in stmts)
-    regs = rng.sample([3, 4, 6, 7, 8, 10, 12], 2)
+    regs = rng.sample([3, 4, 6, 7, 8, 10, 12] + modes + modes, 2)       # (often registers numbered like the subroutine's own modes)
     lines = ["name main", "version 1.0", 'include "feed.xbb"', ""] + ["MeasureX | %d" % r for r in regs]
     inl = ["name main", "version 1.0", ""] + ["MeasureX | %d" % r for r in regs]
     for _ in range(rng.randint(1, 3)):
